@@ -14,15 +14,15 @@ def IdFaithful (d : Desc) : Prop := ∀ u ∈ subs d, ∀ v ∈ subs d, u.id = v
 def Decodable (d : Desc) : Prop := ∀ u ∈ subs d, ∀ n, u.hdr.kind ≠ .sqlRow n
 
 /-- A descriptor tree the encoder of protocol family `p` can emit without a
-    packer overflowing and whose ids are faithful. -/
+    packer overflowing and whose ids are faithful.  (`Decodable` is asked for in
+    addition where the REAL decoder is concerned.) -/
 structure WFDesc (p : Proto) (d : Desc) : Prop where
   /-- per node: the kind exists in `p`, counts fit `uint16`, strings `uint32`,
       cardinalities are members of the enum, arrays are one unbounded dimension -/
   nodes : nodesOK p d = true
   /-- every position fits `uint16` -/
-  fits : (enc p {} d).tbl.length ≤ 65536
+  fits : (enc p none {} d).tbl.length ≤ 65536
   faithful : IdFaithful d
-  decodable : Decodable d
 
 /-- the arguments of an id function as the callers in `sertypes` build them -/
 def IdKey.callerShaped : IdKey → Prop
@@ -33,17 +33,27 @@ def IdKey.callerShaped : IdKey → Prop
       (∀ l, lp = some l → l.length = subs.length) ∧ (∀ l, links = some l → l.length = subs.length)
   | .setOf _ => True
 
-/-- no text contains the separators the id strings are built with:
-    NUL anywhere, `:` in ids / names / cardinality characters -/
+/-- no `\x00` and no `:` inside (the texts `str(uuid)`) -/
 def sepFree (b : Bytes) : Prop := 0 ∉ b ∧ 58 ∉ b
 
+/-- What the id strings still rely on after fix c2beb91: the type name, the id
+    texts and the element NAMES contain no NUL (the part separator; the EdgeQL
+    tokenizer rejects U+0000, so no name can contain it), id texts are non-empty
+    and `:`-free, cardinality characters are neither NUL nor `:`.  Element names
+    may contain `:` and `\`. -/
 def IdKey.NoSep : IdKey → Prop
   | .coll ct subs names =>
-      0 ∉ ct ∧ (∀ s ∈ subs, sepFree s ∧ s ≠ []) ∧ ∀ ns, names = some ns → ∀ n ∈ ns, sepFree n
+      0 ∉ ct ∧ (∀ s ∈ subs, sepFree s ∧ s ≠ []) ∧ ∀ ns, names = some ns → ∀ n ∈ ns, 0 ∉ n
   | .shape base subs names cards _ _ _ =>
-      0 ∉ base ∧ (∀ s ∈ subs, sepFree s ∧ s ≠ []) ∧ (∀ ns, names = some ns → ∀ n ∈ ns, sepFree n) ∧
+      0 ∉ base ∧ (∀ s ∈ subs, sepFree s ∧ s ≠ []) ∧ (∀ ns, names = some ns → ∀ n ∈ ns, 0 ∉ n) ∧
       ∀ cs, cards = some cs → ∀ c ∈ cs, c ≠ 0 ∧ c ≠ 58
   | .setOf s => 0 ∉ s
+
+/-- the hypothesis the PRE-fix strings needed in addition: no `:` in a name -/
+def IdKey.NoColonNames : IdKey → Prop
+  | .coll _ _ names => ∀ ns, names = some ns → ∀ n ∈ ns, 58 ∉ n
+  | .shape _ _ names _ _ _ _ => ∀ ns, names = some ns → ∀ n ∈ ns, 58 ∉ n
+  | .setOf _ => True
 
 /-- which of the three id functions -/
 def IdKey.fn : IdKey → Nat
